@@ -133,6 +133,23 @@ def parseEntry (tok : String) : Option (Op String) :=
   | pt :: rest => if pt.toNat?.isSome then parseOp rest else none
   | [] => none
 
+/-- The window entries `0:<op>:<args>` of an `iter` line (calls issued between `After`'s return and the
+first step of the iteration), and the line without them. -/
+def isWindowTok (tok : String) : Bool := tok.startsWith "0:"
+
+def parseWindow (toks : List String) : Option (List (Op String)) :=
+  match toks with
+  | "iter" :: _ :: _ :: _ :: _ :: _ :: script =>
+    match (script.filter isWindowTok).mapM parseEntry with
+    | some pre => if pre.all isWindowOp then some pre else none
+    | none => none
+  | _ => some []
+
+def dropWindow (toks : List String) : List String :=
+  match toks with
+  | "iter" :: a :: b :: i :: cm :: stop :: script => "iter" :: a :: b :: i :: cm :: stop :: script.filter (fun t => !isWindowTok t)
+  | _ => toks
+
 def parseRec (toks : List String) : Option Rec :=
   match toks with
   | "iter" :: a :: b :: i :: cm :: stop :: script =>
@@ -155,6 +172,7 @@ def Clause.text : Clause → String
   | .afterPurgedNothing => "after_refines_spec: the purge error although no payload lies after the index (nothing can have been evicted)"
   | .bytesBound => "bytes_bound: retained bytes exceed max by more than the latest item"
   | .badStat => "bad-stat"
+  | .accounting => "accounting: the store's byte count (nBytes, which drives eviction) differs from the bytes of the data it retains (the store's own validate check: sizes don't add up)"
   | .concurrent => "concurrent use: nBytes differs from the retained data, or a stream only one goroutine appends to was not replayed exactly (or the purge error) under concurrent use"
   | .panicked => "no_panic: an exported method of the store panicked"
   | .iterShort => "after_iteration_complete_or_error: the After iterator ended WITHOUT an error after yielding only a proper prefix of the payloads after the index (a partial sequence)"
@@ -173,14 +191,17 @@ def engine : Engine DState where
     match toks with
     | ["reset"] => ({}, { model := "ok" })
     | _ =>
-      match parseRec toks with
-      | none => (d, { model := "bad-op" })
-      | some r =>
-        let (mon', cl) := monStep d.mon r (parseObs impl)
+      match parseWindow toks, parseRec (dropWindow toks) with
+      | some pre, some r =>
+        -- the window calls of an `iter` line are records of their own, made before the iteration starts
+        let (mon', cl) := monRun d.mon (expand pre r (parseObs impl))
         let viol := cl.map Clause.text
-        match d.st.bind (recStep · r) with
+        match d.st.bind (recRun · (wireRecs pre r)) with
         | none => ({ st := none, mon := mon' }, { model := "panic", violated := viol })
-        | some (s', m) => ({ st := some s', mon := mon' }, { model := showObs m, violated := viol <|> selfCheck m })
+        | some (s', ms) =>
+          let m := ms.getLast?.getD (.other "")
+          ({ st := some s', mon := mon' }, { model := showObs m, violated := viol <|> selfCheck m })
+      | _, _ => (d, { model := "bad-op" })
 
 end EventStore
 
